@@ -162,6 +162,30 @@ std::string handle(const std::string& op, Args& a)
 		a.end();
 		return run_forked([&](Out& o) { o.ilist(Sub_List(l, i1, i2)); });
 	}
+	if(op == "c19.sublistd")   // element type double
+	{
+		auto l		= a.dbls();
+		int i1		= a.i64();
+		unsigned i2 = a.u64();
+		a.end();
+		return run_forked([&](Out& o) { o.list(Sub_List(l, i1, i2)); });
+	}
+	if(op == "c19.sublists")   // element type std::string
+	{
+		size_t n = a.u64();
+		std::vector<std::string> l(n);
+		for(auto& x : l)
+			x = a.tok();
+		int i1		= a.i64();
+		unsigned i2 = a.u64();
+		a.end();
+		return run_forked([&](Out& o) {
+			auto r = Sub_List(l, i1, i2);
+			o << r.size();
+			for(auto& x : r)
+				o << x;
+		});
+	}
 	if(op == "c19.flatten")
 	{
 		auto ls = int_lists(a);
